@@ -936,8 +936,46 @@ def records(report, db, S):
         if neg:
             report.ok(R, '__ne__ is the negation of __eq__')
     als = db.own_method(ci, '_all_slots')
-    if als is not None and 'reversed(cls.__mro__)' in ast.unparse(als.node) \
-            and "__dict__.get('__slots__'" in ast.unparse(als.node):
+    # decided by evaluation where the folder can: for every record class of
+    # the library _all_slots() must give the own __slots__ of each class of
+    # its MRO, base first.  Only where that cannot be folded is the method
+    # read by its spelling.
+    folded = None
+    if als is not None:
+        try:
+            F_ = Folder(db)
+            nrec = 0
+            for rc in db.classes:
+                if ci not in db.mro(rc):
+                    continue
+                want = []
+                for c in reversed(db.mro(rc)):
+                    defs = c.attrs.get('__slots__')
+                    if defs:
+                        sl = F_.attrdef_value(defs[-1], ClassVal(c), raw=True)
+                        want += [sl] if isinstance(sl, str) else list(sl)
+                got = F_.call(F_.getattr(ClassVal(rc), '_all_slots', rc.node,
+                                         rc.module), [], {}, rc.node,
+                              Env(rc.module))
+                nrec += 1
+                if list(got) != want:
+                    folded = (rc, list(got), want)
+                    break
+            else:
+                folded = True if nrec >= 5 else None
+        except (AnalysisError, FoldRaise, TypeError):
+            folded = None
+    if folded is True:
+        report.ok(R, '_all_slots() gives the __slots__ of the MRO base-first '
+                  'for every record class of the library')
+    elif folded is not None:
+        report.violation(R, 'record:all-slots', ci.path, als.node,
+                         als.qualname, '_all_slots does not collect the '
+                         '__slots__ of every class in the MRO: for %s it '
+                         'gives %s, the MRO declares %s' % (
+                             folded[0].name, folded[1], folded[2]))
+    elif als is not None and 'reversed(cls.__mro__)' in ast.unparse(
+            als.node) and "__dict__.get('__slots__'" in ast.unparse(als.node):
         report.ok(R, '_all_slots walks the MRO base-first')
     else:
         report.violation(R, 'record:all-slots', ci.path, ci.node,
